@@ -73,13 +73,28 @@ func Read(r parser.ReadSeekSizer) (Info, error) {
 		format := buf[4]
 		flags := buf[5]
 
-		if length < 6+8 {
+		var nPairs uint16
+		trueLength := int64(length)
+		if subtableVersion == 0 && format == 0 {
+			nPairs, err = p.ReadUint16()
+			if err != nil {
+				return nil, err
+			}
+			// The length field has 16 bits, but a format 0 subtable with
+			// more than 10920 pairs is longer than 65535 bytes.  Such tables
+			// exist (and Encode writes them); they store the length modulo
+			// 65536, and the number of pairs gives the real length.
+			if l := 14 + 6*int64(nPairs); l > 0xFFFF && uint16(l) == length {
+				trueLength = l
+			}
+		}
+		if trueLength < 6+8 {
 			return nil, &parser.InvalidFontError{
 				SubSystem: "sfnt/kern",
 				Reason:    fmt.Sprintf("invalid kern subtable length %d", length),
 			}
 		}
-		pos += int64(length)
+		pos += trueLength
 
 		if subtableVersion != 0 || format != 0 || flags&0b11110101 != 1 {
 			continue
@@ -87,10 +102,6 @@ func Read(r parser.ReadSeekSizer) (Info, error) {
 		isMinimum := flags&0b00000010 != 0
 		isOverride := flags&0b00001000 != 0
 
-		nPairs, err := p.ReadUint16()
-		if err != nil {
-			return nil, err
-		}
 		err = p.Discard(6) // skip searchRange, entrySelector and rangeShift
 		if err != nil {
 			return nil, err
